@@ -20,8 +20,11 @@ import (
 // of N.Graph().Constructed (same node expression N: conversions and type-switch
 // bindings are transparent, helper parameters are resolved to their arguments)
 // under which a summary build for N.Graph() is run.
-func ensureRule(c *core.Ctx, r *core.Report, rule, pkgRel, fnName string, floor int) {
-	r.Explain(rule + ": in " + pkgRel + "." + fnName + " (helpers inlined) every read of N.Out() on a dataflow graph node N is dominated by a test of N.Graph().Constructed on the same node expression, and a build of N.Graph() (a call reaching dataflow.RunIntraProcedural / BuildSummary) is dominated by that test.")
+func ensureRule(c *core.Ctx, r *core.Report, rule, pkgRel, fnName string, floor int, edgeMethods ...string) {
+	if len(edgeMethods) == 0 {
+		edgeMethods = []string{"Out"}
+	}
+	r.Explain(rule + ": in " + pkgRel + "." + fnName + " (helpers inlined) every read of the edges of a dataflow graph node N (N." + strings.Join(edgeMethods, "(), N.") + "()) is dominated by a test of N.Graph().Constructed on the same node expression, and a build of N.Graph() (a call reaching dataflow.RunIntraProcedural / BuildSummary) is dominated by that test.")
 	root := c.Func(pkgRel, fnName)
 	if root == nil {
 		r.Fail("infra.anchor-unresolved", rule+"|"+pkgRel+"."+fnName, "", "not found")
@@ -88,8 +91,14 @@ func ensureRule(c *core.Ctx, r *core.Report, rule, pkgRel, fnName string, floor 
 				tests = append(tests, site{ii, ii.Canon(n)})
 			}
 		case *ssa.Call:
-			if n := recvOf(x, "Out"); n != nil {
-				uses = append(uses, site{ii, ii.Canon(n)})
+			isUse := false
+			for _, m := range edgeMethods {
+				if n := recvOf(x, m); n != nil {
+					uses = append(uses, site{ii, ii.Canon(n)})
+					isUse = true
+				}
+			}
+			if isUse {
 				continue
 			}
 			if sc := x.Call.StaticCallee(); sc != nil && builds(sc) {
@@ -124,6 +133,6 @@ func ensureRule(c *core.Ctx, r *core.Report, rule, pkgRel, fnName string, floor 
 	}
 	sort.Strings(bad)
 	r.Check(len(bad) == 0, rule, pkgRel+"."+fnName+"|Out()-reads-ensure-summary", c.Pos(root.Pos()),
-		fmt.Sprintf("all %d reads of a node's Out() edges are dominated by a Constructed test of that node's summary with a build under it (%d tests, %d builds)", len(uses), len(tests), len(bld)),
-		fmt.Sprintf("the Out() edges of a node are read at %s without first testing that node's Graph().Constructed and building the summary: when the summary has not been built yet (summarize-on-demand, pkg-filter) the node has no edges, nothing is enqueued and the flow is silently dropped - in the lazy configuration only", strings.Join(bad, ", ")))
+		fmt.Sprintf("all %d reads of a node's edges are dominated by a Constructed test of that node's summary with a build under it (%d tests, %d builds)", len(uses), len(tests), len(bld)),
+		fmt.Sprintf("the edges of a node are read at %s without first testing that node's Graph().Constructed and building the summary: when the summary has not been built yet (summarize-on-demand, pkg-filter) the node has no edges, nothing is enqueued and the flow is silently dropped - in the lazy configuration only", strings.Join(bad, ", ")))
 }
